@@ -8,6 +8,7 @@ import (
 	"crypto/sha256"
 	"encoding/hex"
 	"fmt"
+	"os"
 	"sort"
 	"strings"
 	"testing/synctest"
@@ -194,7 +195,7 @@ func (s *vsim) netStep(faults bool) bool {
 	if c-len(msgs) > 0 {
 		s.r.Fault("fetch_reorder")
 	}
-	s.r.Logf("fetch %s block", s.nodes[f.Node].name)
+	s.r.Logf("fetch %s block%s", s.nodes[f.Node].name, debugCid(f.Cid.String(), len(res)))
 	s.w.ResolveFetch(f)
 	s.wait()
 	return true
@@ -351,3 +352,12 @@ func shortHash(s string) string {
 }
 
 var _ = bytes.Equal
+
+// debugCid adds the block identifier and the number of resolvable fetches to a trace line when VERIF_DEBUG_CIDS is set
+// (development aid for divergence hunting; off by default because identifiers are not abstract names).
+func debugCid(c string, n int) string {
+	if os.Getenv("VERIF_DEBUG_CIDS") == "" {
+		return ""
+	}
+	return fmt.Sprintf(" %s (of %d resolvable)", c[len(c)-8:], n)
+}
